@@ -265,6 +265,7 @@ Definition dq_res := option (dq_cfg * list (tid * dq_obs)).
 
 (* ---------- parking / waking ---------- *)
 Definition is_park (p : dq_pc) : bool := match p with EPark1 | DPark1 | DPark2 => true | _ => false end.
+Definition is_tpark (p : dq_pc) : bool := match p with DPark1 => true | _ => false end.   (* blocked in the select that has the timer case *)
 Definition sig_case (p : dq_pc) : dq_pc := match p with EPark1 => ECaseSig | DPark1 => DCaseSig0 | DPark2 => DCaseSig1 | q => q end.
 Definition ctx_case (p : dq_pc) : dq_pc := match p with EPark1 => ECaseCtx1 | DPark1 => DCaseCtx1 | DPark2 => DCaseCtx2 | q => q end.
 Definition cnd_eqb (a b : dq_cnd) : bool := match a, b with CE, CE | CD, CD => true | _, _ => false end.
@@ -288,13 +289,14 @@ Definition goto (c : dq_cfg) (t : tid) (th : dthr) (p : dq_pc) : dq_res :=
 Definition park (c : dq_cfg) (t : tid) (th : dthr) (p : dq_pc) : dq_res :=
   Some (qset_thr c (update t (dset_pc th p) (q_thr c)), []).
 (* the call returns r: the thread leaves the table; ghost logs *)
+Definition fin_log (c : dq_cfg) (th : dthr) (r : dq_ret) : dq_cfg :=
+  match r with
+  | RVal v => qset_out c (v :: q_out c)
+  | RNil => qset_okd c (t_el th :: q_okd c)
+  | _ => c
+  end.
 Definition fin (c : dq_cfg) (t : tid) (th : dthr) (r : dq_ret) : dq_res :=
-  let c1 := match r with
-            | RVal v => qset_out c (v :: q_out c)
-            | RNil => qset_okd c (t_el th :: q_okd c)
-            | _ => c
-            end in
-  Some (qset_thr c1 (remove t (q_thr c)), [(t, ORet r)]).
+  Some (qset_thr (fin_log c th r) (remove t (q_thr c)), [(t, ORet r)]).
 
 (* blocking select: [ready] = the cases that can proceed, in source order *)
 Definition sel (c : dq_cfg) (t : tid) (th : dthr) (ready : list (dq_pc * dthr)) (parkpc : dq_pc) (k : nat) : dq_res :=
@@ -475,10 +477,8 @@ Definition dq_exec1 (c : dq_cfg) (e : dq_ev) : dq_res :=
       match t_tm th with
       | Some (Tm (Some f) b) =>
         if f <=? q_now c then
-          match t_pc th with
-          | DPark1 => goto c t (dset_tm th (Some (Tm None b))) DCaseTimer
-          | _ => Some (qset_thr c (update t (dset_tm th (Some (Tm None true))) (q_thr c)), [])
-          end
+          if is_tpark (t_pc th) then goto c t (dset_tm th (Some (Tm None b))) DCaseTimer
+          else Some (qset_thr c (update t (dset_tm th (Some (Tm None true))) (q_thr c)), [])
         else None
       | _ => None
       end
